@@ -1678,6 +1678,15 @@ fn reader_systematic(ctx: &Ctx, rep: &Report) {
         };
         match shard {
             0 => {
+                // trailing comments nested far deeper than the generator goes (a depth counter must not wrap)
+                for depth in [4usize, 100, 255, 256, 257, 1000, 65_535, 65_536, 70_000] {
+                    for item_route in [false, true] {
+                        let mut s = base(&mut rng, 2003);
+                        s.comments = vec![(" ".to_string(), format!("{}x{}", "(".repeat(depth), ")".repeat(depth)))];
+                        loc.bucket(ids.g("r_systematic_years"));
+                        reader_case(&mut loc, &ids, &s, item_route);
+                    }
+                }
                 for yy in 0..100i64 {
                     for variant in 0..4 {
                         let mut s = base(&mut rng, if yy < 50 { 2000 + yy } else { 1900 + yy });
